@@ -220,6 +220,48 @@ def _shard(srcs, fmt_every):
     return viols, obs
 
 
+def _mainpath_shard(pipes):
+    """The relation to compile is named through `main_path` (the CLI's MAIN_PATH argument / pl_to_rq_tree):
+    `let rel = (P)`, `P | into rel`, and the implicit `main` named explicitly.  Header-only and option-only
+    compilations must agree for every dialect, an unknown header must be rejected, no header means generic."""
+    w = core.Worker()
+    viols, seen = [], set()
+    obs = {"mainpath_programs": 0, "mainpath_cells": 0, "mainpath_dialect_sensitive": 0}
+    D = ["sql." + d for d in core.DIALECTS]
+
+    def tc(text, path, target=None):
+        req = {"op": "tree_compile", "sources": [["", text]], "main_path": path, "format": False, "signature": False}
+        if target is not None:
+            req["target"] = target
+        return outkey(w.call(req))
+    for P in pipes:
+        forms = [("let", "let rel = (%s)" % P, ["rel"]), ("into", P + "\ninto rel", ["rel"]), ("main", P, ["main"]),
+                 ("let_among", "let other = (from o | take 1)\nlet rel = (%s)\nlet third = (from rel | take 2)" % P, ["rel"])]
+        for fname, body, path in forms:
+            by_opt = {d: tc(body, path, d) for d in D}
+            if not any(v[0] == "sql" for v in by_opt.values()):
+                continue
+            obs["mainpath_programs"] += 1
+            if len(set(by_opt.values())) > 1:
+                obs["mainpath_dialect_sensitive"] += 1
+            cells = [(d, tc("prql target:%s\n" % d + body, path), by_opt[d], "header_not_honoured") for d in D]
+            cells.append(("absent", tc(body, path), by_opt["sql.generic"], "default_not_generic"))
+            cells.append(("sql.mssql/opt sql.postgres", tc("prql target:sql.mssql\n" + body, path, "sql.postgres"), by_opt["sql.postgres"], "option_not_overriding_header"))
+            unk = tc("prql target:sql.nosuchdialect\n" + body, path)
+            obs["mainpath_cells"] += len(cells) + 1
+            if unk[0] == "sql":
+                cells.append(("sql.nosuchdialect", unk, ("err", "unknown target"), "unknown_header_accepted"))
+            for h, got, want, kind in cells:
+                if got != want and not (kind == "unknown_header_accepted" and got[0] != "sql"):
+                    key = (kind, fname)
+                    viols.append({"property": "C18", "symptom": kind, "shape": "main_path:%s h=%s" % (fname, h if kind != "header_not_honoured" else "sql.X"),
+                                  "witness": {"mainpath": True, "pipe": P, "form": fname} if key not in seen else None,
+                                  "detail": "main_path %r, header %s: got %r, want %r" % (path, h, str(got)[:200], str(want)[:200])})
+                    seen.add(key)
+    w.close()
+    return viols, obs
+
+
 def programs(tier, seed):
     rng = core.shard_rng(seed, "C18", 0)
     progs = [p for p in DIALECT_SENSITIVE]
@@ -247,13 +289,21 @@ def run(tier, seed):
         cells = obs["cells"] | o.pop("cells")
         core.merge_counts(obs, o)
         obs["cells"] = cells
+    mp = [p for p in DIALECT_SENSITIVE if "\n" not in p and not p.startswith("let ")]
+    res = core.run_shards(_mainpath_shard, [dict(pipes=mp[i::N]) for i in range(N)])
+    mobs = {}
+    for v, o in res:
+        run.extend(v)
+        core.merge_counts(mobs, o)
     cells = obs.pop("cells")
+    obs.update(mobs)
     run.coverage = {
         "evaluations": obs.get("programs", 0) * (len(cells) - 12),
         "distinct_nontrivial": obs.get("dialect_sensitive", 0),
         "rule": "each distinct header-free program is compiled under the whole (option x header) matrix; evaluations = programs x judged compile cells; "
                 "non-trivial = programs whose SQL differs between at least two of the 12 dialects (otherwise the choice of dialect is unobservable)",
         "programs": obs.get("programs", 0),
+        "main_path_phase": {k: v for k, v in mobs.items()},
         "programs_accepted_by_some_dialect": obs.get("accepted_somewhere", 0),
         "matrix_cells_covered": len(cells),
         "matrix_cells_expected": 2 * 15 - 1 + 12 * 12 + 12 + 12 + 1,
@@ -276,6 +326,9 @@ def run(tier, seed):
 
 
 def replay(case):
+    if case.get("mainpath"):
+        v, _ = _mainpath_shard([case["pipe"]])
+        return [x for x in v if ("main_path:" + case["form"] + " ") in x["shape"]]
     w = core.Worker()
     _FORM[0] = case.get("header_form", 0)
     v, _ = judge(w, case["src"], fmt=case.get("format", False))
